@@ -680,7 +680,7 @@ def c15(c):
 
 # ---------------------------------------------------------------------------------------------- C13 (symmetries)
 C13_THEOREMS = ["c13_reflect_hinit", "c13_tolerance_scalar_vector", "c13_radau_tolAdjust", "c13_reflect_rk4", "c13_reflect_rk23", "c13_reflect_dopri5",
-                "c13_reflect_dop853", "c13_reflect_guards", "c13_reflect_stiff", "c13_reflect_norm", "c13_scale_dopri5", "c13_scale_rk23", "c13_copies_norm", "c13_copies_radau_norms",
+                "c13_reflect_dop853", "c13_reflect_guards", "c13_reflect_stiff", "c13_reflect_norm", "c13_scale_dopri5", "c13_scale_rk23", "c13_copies_norm", "c13_copies_radau_norms", "c13_scale_bdf_norm",
                 "rkArg_reflect", "rkNew_reflect", "rkArg_scale", "rkNew_scale", "sum_copies", "foldl_add_eq_sum"]
 
 
@@ -704,7 +704,7 @@ def c13(c):
 # ---------------------------------------------------------------------------------------------- C01 (accuracy)
 C01_THEOREMS = ["c01_errnorm_spec_dopri5", "c01_errnorm_spec_rk23", "c01_errnorm_spec_radau", "c01_radau_tolerances", "c01_accept_iff",
                 "c01_tol_monotone_dopri5", "c01_tol_monotone_rk23", "c01_controller_bounds", "sqrtLaws_real", "errSum_anti", "accepted_componentwise",
-                "c01_errnorm_spec_bdf", "c01_errnorm_spec_radau_refined"]
+                "c01_errnorm_spec_bdf", "c01_errnorm_spec_radau_refined", "c01_errnorm_spec_bdf_translated", "c01_bdf_model_eq_translated"]
 
 
 def c01(c):
